@@ -20,6 +20,173 @@ extern crate std as rstd;
 
 pub use rstd::*;
 
+/// `std::time` on a simulated clock: for a simulated task, `now()` is a fixed base plus the
+/// simulator's clock, which jumps forward by seeded amounts (microseconds to days) at every
+/// reading; `SystemTime` may additionally be skewed and step backwards, as wall clocks do.
+/// Any other thread reads the real clock.
+pub mod time {
+    pub use rstd::time::{Duration, SystemTimeError, TryFromFloatSecsError};
+
+    use fqcore::__fqsim::clock;
+    use rstd::ops::{Add, AddAssign, Sub, SubAssign};
+    use rstd::sync::OnceLock;
+    use rstd::time as real;
+
+    static BASE: OnceLock<real::Instant> = OnceLock::new();
+
+    #[derive(Copy, Clone, PartialEq, Eq, PartialOrd, Ord, Hash)]
+    pub struct Instant(real::Instant);
+
+    impl Instant {
+        pub fn now() -> Instant {
+            match clock(0) {
+                Some(ns) => Instant(*BASE.get_or_init(real::Instant::now) + Duration::from_nanos(ns)),
+                None => Instant(real::Instant::now()),
+            }
+        }
+        pub fn duration_since(&self, earlier: Instant) -> Duration {
+            self.0.duration_since(earlier.0)
+        }
+        pub fn checked_duration_since(&self, earlier: Instant) -> Option<Duration> {
+            self.0.checked_duration_since(earlier.0)
+        }
+        pub fn saturating_duration_since(&self, earlier: Instant) -> Duration {
+            self.0.saturating_duration_since(earlier.0)
+        }
+        pub fn elapsed(&self) -> Duration {
+            Instant::now().0.saturating_duration_since(self.0)
+        }
+        pub fn checked_add(&self, d: Duration) -> Option<Instant> {
+            self.0.checked_add(d).map(Instant)
+        }
+        pub fn checked_sub(&self, d: Duration) -> Option<Instant> {
+            self.0.checked_sub(d).map(Instant)
+        }
+    }
+    impl Add<Duration> for Instant {
+        type Output = Instant;
+        fn add(self, d: Duration) -> Instant {
+            Instant(self.0 + d)
+        }
+    }
+    impl AddAssign<Duration> for Instant {
+        fn add_assign(&mut self, d: Duration) {
+            self.0 += d;
+        }
+    }
+    impl Sub<Duration> for Instant {
+        type Output = Instant;
+        fn sub(self, d: Duration) -> Instant {
+            Instant(self.0 - d)
+        }
+    }
+    impl SubAssign<Duration> for Instant {
+        fn sub_assign(&mut self, d: Duration) {
+            self.0 -= d;
+        }
+    }
+    impl Sub<Instant> for Instant {
+        type Output = Duration;
+        fn sub(self, o: Instant) -> Duration {
+            self.0.saturating_duration_since(o.0)
+        }
+    }
+    impl rstd::fmt::Debug for Instant {
+        fn fmt(&self, f: &mut rstd::fmt::Formatter<'_>) -> rstd::fmt::Result {
+            rstd::fmt::Debug::fmt(&self.0, f)
+        }
+    }
+
+    /// 2027-01-15: a fixed origin for simulated wall-clock time.
+    const SIM_EPOCH_SECS: u64 = 1_800_000_000;
+
+    #[derive(Copy, Clone, PartialEq, Eq, PartialOrd, Ord, Hash)]
+    pub struct SystemTime(real::SystemTime);
+
+    pub const UNIX_EPOCH: SystemTime = SystemTime(real::UNIX_EPOCH);
+
+    impl SystemTime {
+        pub const UNIX_EPOCH: SystemTime = SystemTime(real::UNIX_EPOCH);
+
+        pub fn now() -> SystemTime {
+            match clock(0) {
+                Some(ns) => {
+                    // wall clocks are not monotonic: a skew derived from the reading itself
+                    // occasionally steps the result back by up to ~2 s
+                    let skew_back = if ns % 7 == 3 { (ns / 7) % 2_000_000_000 } else { 0 };
+                    let t = real::UNIX_EPOCH + Duration::from_secs(SIM_EPOCH_SECS) + Duration::from_nanos(ns);
+                    SystemTime(t - Duration::from_nanos(skew_back))
+                }
+                None => SystemTime(real::SystemTime::now()),
+            }
+        }
+        pub fn duration_since(&self, earlier: SystemTime) -> Result<Duration, SystemTimeError> {
+            self.0.duration_since(earlier.0)
+        }
+        pub fn elapsed(&self) -> Result<Duration, SystemTimeError> {
+            SystemTime::now().0.duration_since(self.0)
+        }
+        pub fn checked_add(&self, d: Duration) -> Option<SystemTime> {
+            self.0.checked_add(d).map(SystemTime)
+        }
+        pub fn checked_sub(&self, d: Duration) -> Option<SystemTime> {
+            self.0.checked_sub(d).map(SystemTime)
+        }
+    }
+    impl Add<Duration> for SystemTime {
+        type Output = SystemTime;
+        fn add(self, d: Duration) -> SystemTime {
+            SystemTime(self.0 + d)
+        }
+    }
+    impl AddAssign<Duration> for SystemTime {
+        fn add_assign(&mut self, d: Duration) {
+            self.0 += d;
+        }
+    }
+    impl Sub<Duration> for SystemTime {
+        type Output = SystemTime;
+        fn sub(self, d: Duration) -> SystemTime {
+            SystemTime(self.0 - d)
+        }
+    }
+    impl SubAssign<Duration> for SystemTime {
+        fn sub_assign(&mut self, d: Duration) {
+            self.0 -= d;
+        }
+    }
+    impl rstd::fmt::Debug for SystemTime {
+        fn fmt(&self, f: &mut rstd::fmt::Formatter<'_>) -> rstd::fmt::Result {
+            rstd::fmt::Debug::fmt(&self.0, f)
+        }
+    }
+    impl From<SystemTime> for real::SystemTime {
+        fn from(t: SystemTime) -> real::SystemTime {
+            t.0
+        }
+    }
+}
+
+/// `std::thread` with `sleep` on the simulated clock and `yield_now` as a scheduling point.
+pub mod thread {
+    pub use rstd::thread::*;
+
+    pub fn sleep(d: rstd::time::Duration) {
+        let ns = d.as_nanos().min(u64::MAX as u128) as u64;
+        if fqcore::__fqsim::clock(ns.max(1)).is_some() {
+            // simulated time has advanced by `d`; let somebody else run, as a real sleep would
+            fqcore::__fqsim::point("sync:sleep");
+        } else {
+            rstd::thread::sleep(d);
+        }
+    }
+
+    pub fn yield_now() {
+        fqcore::__fqsim::point("sync:yield_now");
+        rstd::thread::yield_now();
+    }
+}
+
 pub mod sync {
     pub use rstd::sync::*;
 
